@@ -437,4 +437,23 @@ theorem core_induction (q : Query) : ∀ (b : Bool) (l : Loop) (T : Table) (s s'
           split <;> rfl
       · cases hs
 
+/-- **C11 on the relational core** — for every value algebra, graph, parameter map and well-scoped core query the
+    modelled engine returns exactly the reference's list of rows, or the same error. -/
+theorem core_refines (q : Query) (hc : InCore q = true) (hs : Spec.WellScoped q) :
+    Exec.run A env q = (Spec.denote A env q).map Spec.Result.rows := by
+  unfold Spec.WellScoped at hs
+  obtain ⟨s', hs'⟩ := Option.isSome_iff_exists.mp hs
+  have h := core_induction A env q false {} [[]] [] s' hc hs' rfl (fun h => by cases h) rfl KOk_nil
+  unfold Spec.denote
+  rw [if_pos hs, ← h]
+  rfl
+
+theorem agrees_of_eq (m : Except Err Table) (d : Except Err Spec.Result) (h : m = d.map Spec.Result.rows) :
+    Agrees m d := by
+  subst h
+  unfold Agrees agreesB
+  cases d with
+  | error e => simp [Except.map]
+  | ok res => simp only [Except.map]; exact List.isPerm_iff.mpr (List.Perm.refl _)
+
 end Nervus.Cy
